@@ -460,6 +460,30 @@ func randMsgPB(r *rand.Rand, md protoreflect.MessageDescriptor, depth int, cfg p
 	return m
 }
 
+// refMarshalAnyOrder: the reference encoder does not promise ascending field numbers (non-deterministic marshalling
+// ranges over a Go map, oneof members come last, concatenated messages merge): one time in three the top-level
+// fields of the message are encoded one by one and concatenated in a seeded order.
+func refMarshalAnyOrder(r *rand.Rand, pm protoreflect.ProtoMessage) []byte {
+	if r.Intn(3) != 0 {
+		return refMarshal(pm)
+	}
+	m := pm.ProtoReflect()
+	var fds []protoreflect.FieldDescriptor
+	m.Range(func(fd protoreflect.FieldDescriptor, _ protoreflect.Value) bool {
+		fds = append(fds, fd)
+		return true
+	})
+	sort.Slice(fds, func(i, j int) bool { return fds[i].Number() < fds[j].Number() })
+	r.Shuffle(len(fds), func(i, j int) { fds[i], fds[j] = fds[j], fds[i] })
+	var out []byte
+	for _, fd := range fds {
+		t := dynamicpb.NewMessage(m.Descriptor())
+		t.Set(fd, m.Get(fd))
+		out = append(out, refMarshal(t)...)
+	}
+	return out
+}
+
 func refMarshal(m protoreflect.ProtoMessage) []byte {
 	b, err := gproto.MarshalOptions{Deterministic: true}.Marshal(m)
 	if err != nil {
